@@ -175,6 +175,7 @@ type l2world struct {
 	roMuts   int
 	lastMuts int
 	fltFired, lastFailed bool // storage-fault bookkeeping of the current statement
+	cacheMixed           bool // connections with an odd index get no node cache
 	dead     bool // a Go panic crossed the cgo boundary: SQLite's mutex is held, the process state is unusable
 }
 
@@ -437,7 +438,8 @@ func (w *l2world) exec(op *sop, stats map[string]int) bool {
 		}
 		match := (f.on == "G" && kind == "G") || (f.on == "P" && kind == "P" && !strings.Contains(key, "/merged/")) ||
 			(f.on == "Dn" && kind == "D" && strings.Contains(key, "/node/")) || (f.on == "Dm" && kind == "D" && strings.Contains(key, "/merged/")) ||
-			(f.on == "Pm" && kind == "P" && strings.Contains(key, "/merged/")) || (f.on == "Dc" && kind == "D" && strings.Contains(key, "/current/"))
+			(f.on == "Pm" && kind == "P" && strings.Contains(key, "/merged/")) || (f.on == "Dc" && kind == "D" && strings.Contains(key, "/current/")) ||
+			(f.on == "L" && kind == "L")
 		if !match {
 			return fOK
 		}
@@ -502,7 +504,7 @@ func (w *l2world) exec1(op *sop, stats map[string]int) bool {
 	if w.dead {
 		return false
 	}
-	if op.kind != "conn" && (c == nil || (op.kind != "create" && !c.created)) {
+	if op.kind != "conn" && (c == nil || (op.kind != "create" && op.kind != "begin" && !c.created)) {
 		return false
 	}
 	w.px.takeLog()
@@ -519,7 +521,9 @@ func (w *l2world) exec1(op *sop, stats map[string]int) bool {
 		out.s(";")
 		out.s("ok")
 	case "create":
-		c.table = fmt.Sprintf("t%d", nextCounter())
+		if c.table == "" || c.created {
+			c.table = fmt.Sprintf("t%d", nextCounter()) // (a retry after a failed attach uses the same name)
+		}
 		c.ro = op.ro
 		opts := ""
 		if op.ro {
@@ -528,11 +532,12 @@ func (w *l2world) exec1(op *sop, stats map[string]int) bool {
 		if w.epn > 0 {
 			opts += fmt.Sprintf("entries_per_node=%d,\n", w.epn)
 		}
-		if w.cache > 0 {
+		if w.cache > 0 && !(w.cacheMixed && op.c%2 == 1) {
 			opts += fmt.Sprintf("node_cache_entries=%d,\n", w.cache)
 		}
 		_, err := c.db.Exec(fmt.Sprintf("create virtual table %s using s3db (\ns3_bucket='%s',\ns3_endpoint='%s',\ns3_prefix='%s',\n%scolumns='%s')",
 			c.table, w.bucket, w.px.url, w.prefix, opts, w.colDecl()))
+		w.lastFailed = err != nil
 		out.s(";")
 		out.s(classifyErr(err))
 		var mo tw
@@ -1056,6 +1061,7 @@ type l2profile struct {
 	roReader   bool // an extra read-only connection that does everything
 	autoTime   bool // some transactions run without an explicit write time
 	faults     bool // one-shot storage faults during statements; a fresh reader looks at the end
+	cacheStory bool // connections with and without a node cache on one prefix, vacuums in between
 }
 
 var keyPoolAll = []sval{
@@ -1116,7 +1122,11 @@ func runL2History(g *gen, prof l2profile, nops int, stats map[string]int) (strin
 		epn = []int{0, 0, 2, 2, 3, 4}[g.r.Intn(6)]
 		cache = 0
 	}
+	if prof.cacheStory {
+		epn, cache = 0, 64
+	}
 	w := newL2World(ncols, epn, cache, prof.native)
+	w.cacheMixed = prof.cacheStory
 	// key pool for this case
 	var keys []sval
 	nk := 3 + g.r.Intn(6)
@@ -1172,6 +1182,27 @@ func runL2History(g *gen, prof l2profile, nops int, stats map[string]int) (strin
 	nconn := prof.writers
 	for c := 0; c < nconn; c++ {
 		do(&sop{kind: "conn", c: c})
+		if prof.faults && g.r.Intn(3) == 0 {
+			// a storage fault while the table is attached: CREATE fails; once the fault has cleared
+			// the same statement (same table name) must succeed
+			w.exec(&sop{kind: "create", c: c, flt: &l2fault{on: []string{"L", "G"}[g.r.Intn(2)], k: 0}}, stats)
+			if !w.conns[c].created {
+				do(&sop{kind: "create", c: c})
+				stats["script_attach_retry"]++
+			}
+			continue
+		}
+		if prof.tx && !prof.faults && g.r.Intn(4) == 0 {
+			// the table is created inside an explicit transaction: SQLite then calls xSync / xCommit
+			// for it without ever calling xBegin; what the transaction wrote must be committed
+			do(&sop{kind: "begin", c: c})
+			do(&sop{kind: "create", c: c})
+			do(&sop{kind: "wt", c: c, t: l2BaseSec + 5})
+			do(&sop{kind: "ins", c: c, key: sval{tag: 'I', i: int64(900 + c)}, vals: nullVals(ncols)})
+			do(&sop{kind: "commit", c: c})
+			stats["script_create_inside_tx"]++
+			continue
+		}
 		do(&sop{kind: "create", c: c})
 	}
 	if prof.roReader {
@@ -1206,6 +1237,26 @@ func runL2History(g *gen, prof l2profile, nops int, stats map[string]int) (strin
 		do(&sop{kind: "sel", c: 0})
 		do(&sop{kind: "sel", c: 1})
 		stats["script_same_value_reassigned"]++
+	}
+	if prof.cacheStory {
+		// A (cache) writes two versions; B (no cache) vacuums the first one's node away; C (cache)
+		// brings the table back to the first content and vacuums: every connection's cache is its
+		// own, so C must upload the node again and a fresh reader sees the row
+		row := func() []sval { return nullVals(ncols) }
+		do(&sop{kind: "wt", c: 0, t: l2BaseSec + 1})
+		do(&sop{kind: "ins", c: 0, key: sval{tag: 'I', i: 1}, vals: row()})
+		do(&sop{kind: "wt", c: 0, t: l2BaseSec + 2})
+		do(&sop{kind: "ins", c: 0, key: sval{tag: 'I', i: 2}, vals: row()})
+		do(&sop{kind: "refresh", c: 1})
+		do(&sop{kind: "vacuum", c: 1, before: 4102444800})
+		do(&sop{kind: "refresh", c: 2})
+		do(&sop{kind: "wt", c: 2, t: l2BaseSec + 3})
+		do(&sop{kind: "del", c: 2, key: sval{tag: 'I', i: 2}})
+		do(&sop{kind: "vacuum", c: 2, before: 4102444800})
+		do(&sop{kind: "refresh", c: 0})
+		do(&sop{kind: "refresh", c: 1})
+		do(&sop{kind: "sel", c: 1})
+		stats["script_cache_story"]++
 	}
 	if prof.faults && g.r.Intn(3) == 0 {
 		// a vacuum that purges a deleted row (so that it commits a new version and the version the
@@ -1608,6 +1659,8 @@ func runL2(seed int64, n int, dir string, profName string) error {
 			prof = l2profile{writers: 1 + g.r.Intn(2), tx: true, retries: true, connAttrs: true, autoTime: true, fullMask: true}
 		case "tx":
 			prof = l2profile{writers: 1, native: true, monotone: true, tx: true, connAttrs: true}
+		case "cachemix":
+			prof = l2profile{writers: 3, vacuum: true, cacheStory: true}
 		case "faults":
 			prof = l2profile{writers: 1, native: true, monotone: true, tx: g.r.Intn(3) != 0, faults: true, vacuum: g.r.Intn(2) == 0}
 		case "ro":
@@ -1621,6 +1674,11 @@ func runL2(seed int64, n int, dir string, profName string) error {
 		fmt.Fprintf(cw, "%d sqlhist%s\n", c, in)
 		fmt.Fprintf(iw, "%d%s\n", c, out)
 		stats["hist_"+profName]++
+	}
+	if profName == "single" {
+		fmt.Fprintf(cw, "%d probe invalid-utf8-text-is-refused\n", n+1)
+		fmt.Fprintf(iw, "%d %s\n", n+1, probeInvalidText())
+		stats["probe_invalid_text"]++
 	}
 	if profName == "tx" {
 		for k := 0; k < 3; k++ {
